@@ -134,6 +134,10 @@ class RefPlayer(object):
         depth = [0]
         self.trace = [self.state()]
         self.touched = set()
+        # the queue entries the string specifies, one by one: (frequency, seconds, counts as a note?)
+        # (a gap is an entry of its own, a rest is one entry), and their number after each command
+        self.raw = []
+        self.trace_n = [0]
         # a pointer to an array element goes stale when a scalar is created (arrays move up):
         # a string that holds one and also creates a variable by naming it is not judged
         array_pointer = re.search('\x01[^\x02]*[(]', mml) is not None
@@ -230,8 +234,12 @@ class RefPlayer(object):
             d = (240. / self.tempo) / length * (1.5 ** ndots)
             if rest:
                 events.append((0., 0., d))
+                self.raw.append((0., d, True))
             else:
                 events.append((freq, d * (1 - self.gap), d * self.gap))
+                self.raw.append((freq, d * (1 - self.gap), True))
+                if self.gap:
+                    self.raw.append((0., d * self.gap, False))
 
         while True:
             c = read().upper()
@@ -334,6 +342,7 @@ class RefPlayer(object):
             else:
                 raise MalformedMML('unknown-command')
             self.trace.append(self.state())
+            self.trace_n.append(len(self.raw))
 
     def run(self, mml, variables):
         """-> (events, error class or None, command kinds)"""
@@ -614,8 +623,13 @@ def gen(rng, tier, prop):
             ops.append({'op': 'sleep', 's': s})
         elif r < 0.89:
             ops.append({'op': 'jump', 's': rng.choice([-3, -1, -0.5, -0.01, 0.01, 0.5, 2, 30, 3600])})
-        elif r < 0.95:
+        elif r < 0.94:
             ops.append({'op': 'stmt', 'text': rng.choice(STMTS)})
+        elif r < 0.965:
+            if rng.random() < 0.6:
+                # with music in the background
+                ops.append({'op': 'play', 'mml': 'MB' + _mml(rng, rng.randint(4, 30), speed, [])})
+            ops.append({'op': 'restart', 's': rng.choice([0, 0.001, 0.02, 0.1, 0.3, 1, 2, 5, 30])})
         else:
             ops.append({'op': 'reset'})
             defined.clear()
@@ -673,7 +687,7 @@ def simplify(cfg, ops):
                 if len(toks) <= 12:
                     for j in range(len(toks)):
                         yield cfg, ops[:i] + [dict(op, mml=''.join(toks[:j] + toks[j + 1:]))] + ops[i + 1:]
-        if op['op'] == 'sleep' and op['s'] > 0.01:
+        if op['op'] in ('sleep', 'restart') and op['s'] > 0.01:
             yield cfg, ops[:i] + [dict(op, s=0.01)] + ops[i + 1:]
         if op['op'] == 'pad':
             if op['names']:
@@ -776,6 +790,7 @@ def _body(run):
     doubtful = set()   # scalars that a string may have created by naming them
     # model of the sound queue: absolute end times (us) of entries not yet known to have ended
     queue = []
+    detail = []        # alongside: (frequency, seconds, counts as a note? / None: not known)
     timing = [True]
     # STOP and END return to direct mode; whether sound still queued survives that is not
     # specified: until the instant at which it would have ended anyway timing is not judged
@@ -805,7 +820,7 @@ def _body(run):
             variables.clear()
             arrays.clear()
             doubtful.clear()
-            del queue[:]
+            del queue[:], detail[:]
             timing[0] = True
             unsure_until[0] = 0
             context[0] = ''
@@ -993,6 +1008,71 @@ def _body(run):
                     run.probe('clock-step-with-sound-queued' if waiting(w.clock_us) else 'clock-step-backwards')
                 w.jump_clock(op['s'])
                 run.state(k, op['s'] > 0, timing[0])
+            elif k == 'restart':
+                # suspend the session (music may be queued), let time pass, resume it from the file
+                # with the audio queue attached anew: what had not finished sounding is emitted again
+                from pcbasic.basic import Session
+                path = run.make_scratch() + '/session.pcb'
+                new_tones()
+                t0 = w.clock_us
+                known = timing[0] and t0 >= unsure_until[0]
+                d._guard('suspend', lambda: d.s.suspend(path))
+                d.close()
+                t1 = w.clock_us
+                w.sleep(op['s'])
+                t2 = w.clock_us
+                session = d._guard('resume', lambda: Session.resume(path))
+                d = Driver(w, session=session)
+                w.faults['restart'] += 1
+                t3 = w.clock_us
+                cont_ok[0] = False
+                tones, stops = new_tones()
+                # the instant up to which the queue had been consumed lies in [t0, cut]
+                cut = t1 + (t3 - t2)
+                pending = [j for j, e in enumerate(queue) if e > t0]
+                certain = [j for j in pending if queue[j] > cut]
+                run.state(k, min(len(pending), 40) // 8, op['s'] > 0.1, known, program)
+                if known:
+                    run.probe('restart-with-music-queued' if certain else 'restart-quiet')
+                    tol = 5e-6
+                    bad = None
+                    if len(tones) < len(certain):
+                        bad = ('queued-notes-lost', '%d entries emitted after resume, %d had not finished' % (len(tones), len(certain)))
+                    elif len(tones) > len(pending):
+                        bad = ('notes-not-queued', '%d entries emitted after resume, %d had not finished' % (len(tones), len(pending)))
+                    else:
+                        back = pending[len(pending) - len(tones):]
+                        for n_, (j, (clk, f, dur)) in enumerate(zip(back, tones)):
+                            wf, wd = detail[j][0], detail[j][1]
+                            # the entry that was sounding: what is left of it, or all of it
+                            least = wd if n_ else max(0., min(wd, (queue[j] - cut) / 1e6))
+                            if not close(f, wf) or dur > wd + tol or dur < least - tol:
+                                bad = ('notes-not-as-specified', 'entry %d after resume: engine %.6f Hz for %.6f s, queued %.6f Hz for %.6f s%s' % (
+                                    n_, f, dur, wf, wd, ' (of which at least %.6f s were left)' % least if not n_ else ''))
+                                break
+                    if bad:
+                        run.violate('C42', 'resume:' + bad[0],
+                                    'suspended with %d entries not finished, resumed %.3f s later: %s\nqueued  %r\nemitted %r' % (
+                                        len(certain), op['s'], bad[1], [detail[j][:2] for j in pending][:10], [t[1:] for t in tones][:10]))
+                    elif all(detail[j][2] is not None for j in pending):
+                        # PLAY(0): the notes (not the gaps) that wait; the one sounding does not count
+                        n_play = int(d.eval(b'PLAY(0)'))
+                        most = len([j for j in pending if detail[j][2]])
+                        least = len([j for j in certain if detail[j][2]]) - 1
+                        if not least <= n_play <= most:
+                            run.violate('C42', 'resume:play-function-miscounts',
+                                        'suspended with %d to %d notes not finished, resumed %.3f s later: PLAY(0) = %d' % (least + 1, most, op['s'], n_play))
+                # the queue is taken up where it was left
+                keep = pending[len(pending) - min(len(tones), len(pending)):]
+                shift = t2 - t1
+                queue[:] = [queue[j] + shift for j in keep]
+                detail[:] = [detail[j] for j in keep]
+                if unsure_until[0]:
+                    unsure_until[0] += shift
+                if t3 - t2 or t1 - t0:
+                    # (the shift is known to that precision only)
+                    unsure_until[0] = max(unsure_until[0], queue[-1] if queue else 0)
+                context[0] = context[0] or 'after-restart'
             elif k == 'reset':
                 r, in_program = statement(i, b'CLEAR')
                 if in_program and astray(r):
@@ -1011,7 +1091,7 @@ def _body(run):
                 state_before = ref.state()
                 pointers = [nm.upper() for nm in re.findall('\x01([^\x02]*)\x02', mml)]
                 where = []
-                ref.trace = [state_before]
+                ref.trace, ref.trace_n, ref.raw = [state_before], [0], []
                 ref.touched = set()
                 if _mml_len(mml) > 255:
                     # String too long: the string expression fails, PLAY does not get to run
@@ -1060,9 +1140,13 @@ def _body(run):
                 got = coalesce([(f, dur) for _, f, dur in tones])
                 fg = ref.foreground
                 # queue model: every recorded entry starts when its predecessor ends
-                for clk, f, dur in tones:
+                # do the entries follow the reference one by one (as far as they go)?
+                raw_ok = len(tones) <= len(ref.raw) and all(
+                    close(t[1], x[0]) and close(t[2], x[1]) for t, x in zip(tones, ref.raw))
+                for j, (clk, f, dur) in enumerate(tones):
                     start = max(queue[-1] if queue else 0, clk)
                     queue.append(start + int(round(dur * 1e6)))
+                    detail.append((f, dur, ref.raw[j][2] if raw_ok else None))
                 if not judge_timing and queue and c0 < unsure_until[0]:
                     unsure_until[0] = max(unsure_until[0], queue[-1])
                 end_all = queue[-1] if queue else c0
@@ -1139,7 +1223,7 @@ def _body(run):
                                 'Break delivered at poll %d of the statement (+%.3f s), PLAY returned at +%.3f s' % (
                                     op.get('break_poll', 0), (fired[0] - c0) / 1e6, (c1 - c0) / 1e6))
                 if fired:
-                    del queue[:]
+                    del queue[:], detail[:]
                     timing[0] = True
                     unsure_until[0] = 0
                 elif r.err is None and err is None and judge_timing:
@@ -1180,9 +1264,14 @@ def _body(run):
                     # reported: do not report the consequences in the statements that follow as well
                     resync()
                 elif (err is not None or r.err is not None or fired) and not run.stop:
-                    # the statement may have been given up at any command: the state is known if no
-                    # command of the string changes it
-                    if unspecified or r.err not in (None, 5) or len(set(ref.trace)) > 1:
+                    # each command takes effect when it is interpreted. The commands up to the one that
+                    # made the last entry the engine emitted have been interpreted; the statement may
+                    # have been given up at any command after that (up to the malformed one): the
+                    # state is known if all of these leave the same state
+                    reached = [st for st, n_ in zip(ref.trace, ref.trace_n) if n_ >= len(tones)]
+                    if reached and len(set(reached)) == 1 and reached[-1] != state_before:
+                        run.probe('state-set-by-statement-given-up')
+                    if unspecified or r.err not in (None, 5) or not raw_ok or len(set(reached)) != 1:
                         resync()
                     else:
                         run.probe('state-carried-over-' + ('break' if fired else 'error'))
@@ -1193,7 +1282,9 @@ def _body(run):
                 # forget entries that have ended (keep the list short)
                 now = w.clock_us
                 if timing[0]:
-                    queue[:] = [e for e in queue if e > now - 10 ** 6] or queue[-1:]
+                    keep = [j for j, e in enumerate(queue) if e > now - 10 ** 6] or list(range(len(queue)))[-1:]
+                    queue[:] = [queue[j] for j in keep]
+                    detail[:] = [detail[j] for j in keep]
             else:
                 raise K.HarnessError('unknown op %r' % (op,))
         d.close()
